@@ -119,6 +119,7 @@ fn main() {
             "grp" => suites::group::replay(&body),
             "eg" => suites::eg::replay(&body),
             "expl" => suites::expl::replay(&body),
+            "mat" => suites::mat::replay(&body),
             _ => panic!("unknown suite"),
         };
         ctx.emit(c);
